@@ -1,15 +1,17 @@
 #!/bin/sh
 # tools/try_seed.sh <seed dir containing patch.diff> <Cxx> [extra check args]
-# applies the patch to /repo, runs the check, and always reverts.
+# applies the patch in a scratch worktree of /repo (so /repo itself stays
+# clean and other checks can run meanwhile), runs the check against it via
+# VERIF_REPO, removes the worktree.
 set -u
 D=$(cd "$1" && pwd); P=$2; shift 2
-cd /repo || exit 9
-git diff --quiet || { echo "/repo not clean"; exit 9; }
-git apply "$D/patch.diff" || { echo "patch does not apply"; exit 9; }
+W=/tmp/seedrun_$(basename "$D")_$$
+git -C /repo worktree add -q --detach "$W" HEAD || exit 9
+trap 'git -C /repo worktree remove --force "$W" 2>/dev/null' EXIT INT TERM
+git -C "$W" apply "$D/patch.diff" || { echo "patch does not apply"; exit 9; }
 cd /verif
-./check "$P" --no-evidence "$@" > /tmp/try_seed_$P.log 2>&1
+VERIF_REPO="$W" timeout 1400 ./check "$P" --no-evidence "$@" > /tmp/try_seed_$P.log 2>&1
 rc=$?
-git -C /repo checkout -- .
 grep -c '^VIOLATION' /tmp/try_seed_$P.log | sed 's/^/violations: /'
 grep '^VIOLATION' /tmp/try_seed_$P.log | head -5 | cut -c1-260
 tail -1 /tmp/try_seed_$P.log | cut -c1-300
